@@ -96,6 +96,8 @@ structure World where
   progs : Content → Option Script      -- behaviour of a .do file, by content
   rules : Nat → List Nat               -- .do candidates of a target, highest priority first
   trace : List Ev                       -- ghost: most recent first
+  oobRev : Bool := false                -- the order in which redo-unlocked is handed its targets is a hash-set order:
+                                        -- unspecified; `true` = reversed
 
 structure Ctx where
   runid : Nat
@@ -412,7 +414,7 @@ def buildJob (E : Engine) (d : Defects) (cx : Ctx) (fuel : Nat) (t : Nat) (w : W
     if cx.noOob then let (rv, w) := startSelf E d cx t sf0 w; (.done rv, w)
     else
       -- `redo-unlocked t deps…` : two `redo-ifchange` runs in the caller's environment
-      let ts := ts.eraseDups
+      let ts := if w.oobRev then ts.eraseDups.reverse else ts.eraseDups
       match E.ifchangeCmd { cx with noOob := true, unlocked := false, isRedo := false,
                                     parent := if d.oobRecordsDepsOnCaller then cx.parent else none } ts w with
       | (0, w) =>
